@@ -71,6 +71,7 @@ def events_of(st):
         for tk in ("new", "same", "diff"):
             for eager in (True, False):
                 ev.append(("store", i, tk, eager))
+        ev.append(("store", i, "new", "with-pool"))
         ev.append(("to_zarr", i, "new", True))
     ev.append(("config",))
     return ev
@@ -146,6 +147,14 @@ def apply(st, e):
         lazy_source = i >= 2 and i not in st.materialised
         if k == "to_zarr":
             cubed.to_zarr(a, tgt, executor=ex)
+        elif e[3] == "with-pool":
+            # the lazily stored array is computed together with every array of the pool (plans are merged)
+            (lz,) = cubed.store(a, tgt, compute=False)
+            rs = cubed.compute(lz, *[p[1] for p in pool], executor=ex)
+            observe(i, rs[0], "compute of the lazily stored array together with the pool")
+            for j, r in enumerate(rs[1:]):
+                observe(j, r, "compute of the pool together with a lazily stored array")
+            st.materialised |= set(range(len(pool)))
         elif e[3]:
             cubed.store(a, tgt, executor=ex)
         else:
